@@ -409,6 +409,7 @@ def generate(prop, rng, tier):
             tr["row_order"] = rng.choice(["step", "step", "node"])
             tr["subset_of_mesh"] = rng.random() < 0.4
             tr["law_order"] = rng.choice(["samples", "samples", "sorted", "reversed"])
+            tr["series_name"] = rng.choice([None, None, "load", "F"])
         return tr
     return generate_c05(rng, tier)
 
@@ -471,6 +472,7 @@ def generate_c05(rng, tier):
         tr["row_order"] = rng.choice(["step", "step", "node"])
         tr["subset_of_mesh"] = rng.random() < 0.4
         tr["law_order"] = rng.choice(["samples", "samples", "sorted", "reversed"])
+        tr["series_name"] = rng.choice([None, None, "load", "F"])
         # K2 wants all loads off the class edges (see DESIGN 4.5 "known trap")
         f = 1.0137
         loads = [x * step for x in lv]
@@ -568,6 +570,8 @@ def exec_c04(trace, out, log):
         if trace.get("row_order") == "node":
             ser = node_major(ser, [i for i, _ in nodes])
             out.count("probe:node_major_rows")
+        if trace.get("series_name"):
+            ser = ser.rename(trace["series_name"])           # users' series usually carry a name
         law = get_law(trace["law"], int(trace["mat"]), law_nodes([(i, big * 1.0731 * r) for i, r in nodes], trace.get("law_order")), int(trace["bins"]))
         if trace.get("law_order") in ("sorted", "reversed"):
             out.count("probe:law_node_order_" + trace["law_order"])
@@ -849,6 +853,8 @@ def exec_c05(trace, out, log):
     if trace.get("row_order") == "node":
         batch = node_major(batch, [i for i, _ in nodes])
         out.count("probe:node_major_rows")
+    if trace.get("series_name"):
+        batch = batch.rename(trace["series_name"])
     if shared:
         mx = max(r for _, r in nodes) * big * mf
         law_b = get_law(kind, mat, mx, bins)
